@@ -261,6 +261,7 @@ def _callsite(res, rec, n):
                 res["cex"][-1]["forest"] = {"blocks": f.blocks, "parent": f.parent, "outliers": f.outliers, "n": n}
                 return
             new = V.var("alpha_new")
+            ncex = len(res["cex"])
             _prove(res, td.prior.alpha.e.eq(new), "new-alpha-stored")
             _prove(res, td.prior.log_alpha.e.eq(new), "log-alpha-refreshed")
             if f.blocks:
@@ -268,6 +269,10 @@ def _callsite(res, rec, n):
                 # every later density evaluation uses the new value: log_p_one scales by (new/old)^K
                 K = len(f.blocks)
                 _prove(res, (after.e * al.e.pow(K)).eq(before.e * new.pow(K)), "later-densities-use-new-alpha")
+            for c in res["cex"][ncex:]:
+                c["forest"] = {"blocks": f.blocks, "parent": f.parent, "outliers": f.outliers, "n": n}
+            if len(res["cex"]) > ncex:
+                return
     _, funcs = patcher.entered_functions(run)
     res["sample"] = {"case": f"update_concentration_value on all {cases} forests over {n} data points (every outlier subset)"}
     return funcs
@@ -320,7 +325,11 @@ def replay(case):
             got = [c for c in calls if c[0] == "gamma"]
             beta_call = [c for c in calls if c[0] == "beta"]
             bad = (K > 0 and (not beta_call or beta_call[0][2] != n or abs(got[0][1] - want_shape) > 1e-12)) or td.prior.alpha != 0.9
-            return bad, {"calls": calls, "expected_K_n": (K, n)}
+            # every later density evaluation must use the stored value
+            fresh = TreeJointDistribution(FSCRPDistribution(0.9))
+            drift = abs(float(td.log_p_one(tree)) - float(fresh.log_p_one(tree))) + abs(float(td.log_p(tree)) - float(fresh.log_p(tree)))
+            bad = bad or drift > 1e-9 or abs(float(td.prior.log_alpha) - math.log(0.9)) > 1e-12
+            return bad, {"calls": calls, "expected_K_n": (K, n), "density_drift_after_update": drift}
         vals = {k: float(Fraction(v)) for k, v in case.get("values", {}).items()}
         a, b, alpha = vals.get("a", 0.7), vals.get("b", 1.9), vals.get("alpha", 1.3)
         K = max(1, int(round(vals.get("K", 3))))
